@@ -121,6 +121,14 @@ func unitsFor(prog *Program, id string, tier string) []*Unit {
 		}
 		units = append(units, prog.VerifyContract(ct, tier))
 	}
+	if id == "C25" {
+		// lock discipline: a sweep unit for every function that touches a guarded field
+		sw := prog.lockSweepContracts()
+		sort.Slice(sw, func(i, j int) bool { return sw[i].Pkg+sw[i].FuncName < sw[j].Pkg+sw[j].FuncName })
+		for _, ct := range sw {
+			units = append(units, prog.VerifyContract(ct, tier))
+		}
+	}
 	for _, l := range prog.Lemmas {
 		if serves(l.Props) {
 			units = append(units, prog.VerifyLemma(l, tier))
